@@ -569,6 +569,32 @@ func procConcChild(sc *procScenario, w *procWorld) {
 	}
 	close(start)
 	wg.Wait()
+	// Since 5e563fa the subprocessors' channels are BUFFERED: ProcessMessage returns before the unit is
+	// looked at, so "everything handed over" no longer means "everything processed". Wait until every
+	// queue is empty (a unit still queued for a subprocessor that ended is dropped with its channel) and
+	// every created message has had its broadcast — no outcome depends on the time this takes; only a
+	// message that is NEVER built makes the child wait the whole (generous) deadline before it reports.
+	if !sc.Once {
+		created := 0
+		for m := range msgs {
+			if msgs[m].Created {
+				created++
+			}
+		}
+		deadline := time.Now().Add(20 * time.Second)
+		for n := 0; ; n++ {
+			evMu.Lock()
+			got := len(evs)
+			evMu.Unlock()
+			if q := probe.queued(); q <= 0 && got >= created {
+				break
+			}
+			if time.Now().After(deadline) && n >= 2000 {
+				break
+			}
+			time.Sleep(300 * time.Microsecond)
+		}
+	}
 	// settle: every subprocessor that ended has been handled by Run
 	tk, _, live := probe.read(w.pub.id)
 	for n := 0; n < 5000 && live >= 0 && tk != uint64(live); n++ {
